@@ -1,22 +1,35 @@
 """Keep known_findings.json's `fixed` entries in step with the fix: commits on /repo main.
 Each fix commit gets `fixed: property=<id> <commit> <what failed>`; a fixed entry suppresses nothing."""
 import json, subprocess, re
-RULES = [  # (regex on the commit subject, property)
- (r"_slice_indices|unravel_key", "C18"),
- (r"__exit__ must swap|_set_tensor_dict|use_state_dict|custom __setattr__|TensorDictParams|to_module", "C13"),
- (r"context-manager inverses|`with td\.|with-block|_reverse_", "C17"),
- (r"split must|squeeze\(\) down|unflatten must|flatten must range|expand must|view/reshape|permute must|chunk on|repeat|gather|stack|cat\b", "C02"),
- (r"rename_key_ into|exclude\(\) with a nested|flatten_keys\(inplace|select\(\) with a key|membership test|values\(sort", "C04"),
- (r"lerp/addcdiv|prod\(dim=0|reductions|__rsub__|cummin|clamp_max|_items_list ignored|binary ops|in-place binary|in-place arithmetic|__and__", "C09"),
- (r"apply", "C20"),
- (r"rename_key_ moved|batch_size assignment|auto_batch_size|names", "C01"),
- (r"select_out_keys|select_subsequence", "C14"),
-]
-OVERRIDE = {}  # commit-hash -> property, for subjects the rules get wrong
+GROUP = {"A": ["C02", "C17"], "B": ["C03"], "C": ["C08"], "D": ["C04", "C01"], "E": ["C05", "C06"], "F": ["C09", "C20"],
+         "G": ["C12", "C11", "C10"], "H": ["C13", "C14"], "I": ["C15", "C16"], "J": ["C07", "C19"]}
+# within a builder's group: regex on the subject selecting the NON-first property
+SECOND = {"A": [(r"context-manager|`with td|with-block", "C17")],
+          "D": [(r"rename_key_ moved|batch_size assignment|names|coheren|device", "C01")],
+          "E": [(r"memois|cache|stale", "C06")],
+          "F": [(r"apply", "C20")],
+          "G": [(r"consolidat|pickle|state_dict|from_dict|pytree|reduce", "C11"), (r"memmap|load_memmap|mmap", "C10")],
+          "H": [(r"select_out_keys|select_subsequence|TensorDictModule|Sequential|probabilistic|in_keys|out_keys", "C14")],
+          "I": [(r"NonTensor|non-tensor|tolist", "C16")],
+          "J": [(r"vmap|batch dim", "C19")]}
+RULES = [(r"_slice_indices|unravel_key", "C18")]
+OVERRIDE = {}
+
+
+def patch_id(c):
+    d = subprocess.run(["git", "-C", "/repo", "show", c], capture_output=True, text=True).stdout
+    return subprocess.run(["git", "patch-id", "--stable"], input=d, capture_output=True, text=True).stdout.split(" ")[0]
+
+
+origin = {}
+for X in GROUP:
+    r = subprocess.run(["git", "-C", "/repo", "rev-list", f"4564555..b_{X}"], capture_output=True, text=True)
+    for c in r.stdout.split():
+        origin.setdefault(patch_id(c), X)
 log = subprocess.run(["git", "-C", "/repo", "log", "--reverse", "--format=%h|%s", "4564555..main"], capture_output=True, text=True).stdout.splitlines()
 kf = json.load(open("/verif/known_findings.json"))
 hashes = {l.split("|", 1)[0] for l in log}
-kf["findings"] = [e for e in kf["findings"] if not (e.get("status") == "fixed" and e.get("commit") not in hashes)]  # rebased away
+kf["findings"] = [e for e in kf["findings"] if not (e.get("status") == "fixed" and (e.get("commit") not in hashes or "-fixed-" in e["id"]))]  # rebased away / auto entries are regenerated
 have = {e.get("commit") for e in kf["findings"] if e.get("status") == "fixed"}
 unk = []
 for line in log:
@@ -24,6 +37,13 @@ for line in log:
     if not subj.startswith("fix:") or h in have:
         continue
     prop = OVERRIDE.get(h)
+    X = origin.get(patch_id(h))
+    if prop is None and X is not None and not re.search(RULES[0][0], subj):
+        prop = GROUP[X][0]
+        for rx, p2 in SECOND.get(X, []):
+            if re.search(rx, subj, re.I):
+                prop = p2
+                break
     if prop is None:
         for rx, p in RULES:
             if re.search(rx, subj):
